@@ -476,7 +476,13 @@ class ConfigLoader(BaseConfig):
                             #    lower = self.config["particle"][i]["m0"] - 10 * m_sigma
                             else:
                                 lower = None
-                            self.bound_dic[str(p_i.mass)] = (lower, upper)
+                            if (
+                                lower is not None
+                                or upper is not None
+                                or str(p_i.mass) not in self.bound_dic
+                            ):
+                                # keep limits given as ``mass_range`` in ``params``
+                                self.bound_dic[str(p_i.mass)] = (lower, upper)
                         else:
                             self._neglect_when_set_params.append(str(p_i.mass))
                         if "g" in particle_config["float"]:
@@ -493,7 +499,13 @@ class ConfigLoader(BaseConfig):
                             #    lower = self.config["particle"][i]["g0"] - 10 * g_sigma
                             else:
                                 lower = None
-                            self.bound_dic[str(p_i.width)] = (lower, upper)
+                            if (
+                                lower is not None
+                                or upper is not None
+                                or str(p_i.width) not in self.bound_dic
+                            ):
+                                # keep limits given as ``width_range`` in ``params``
+                                self.bound_dic[str(p_i.width)] = (lower, upper)
                         else:
                             self._neglect_when_set_params.append(
                                 str(p_i.width)
